@@ -80,19 +80,26 @@ def obligations(tier):
             wr(L, "t", "??", 4, 1, 2, 0, bb, covers=SEQ + ["top-level-done"])
         if q:
             continue
-        for c, prog in ((4, "[ss{as}]"), (8, "[ss{as}]"), (16, "[s{as}s]")):
+        for c in (4, 8, 16):
             for sl in range(0, 7):
-                wr(L, "t", prog, c, sl, 0, 3, bb, ptr=(sl % 2 == 1), ws=(1 if sl == 4 else 0))
+                prog = "[ss{as}]" if sl <= 3 else "[s{as}]"
+                # cap 16, 1-byte strings: append doubles the capacity before the threshold is crossed inside the value
+                cov = ["accepted", "top-level-done"] if (c, sl) == (16, 1) else CW
+                wr(L, "t", prog, c, sl, 0, 3, bb, ptr=(sl % 2 == 1), ws=(1 if sl == 4 else 0), covers=cov)
+        wr(L, "t", "[s{as}s]", 16, 4, 0, 3, bb)
         wr(L, "t", "[ss{as}]", 4, 2, 0, 1, bb)
         wr(L, "t", "[{ss}]n", 8, 2, 0, 1, bb, ws=2, ptr=True)
         wr(L, "t", "n[s]", 4, 2, 0, 0, bb)
-        wr(L, "t", "[{a{b[s", 8, 3, 0, 3, bb, ptr=True, covers=["accepted", "flushed-inside-value"])
+        wr(L, "t", "[{a{b[7s", 8, 3, 0, 3, bb, ptr=True, covers=["accepted", "flushed-inside-value"])
         wr(L, "t", "[v{av}]", 8, 0, 3, 0, bb)
-        wr(L, "t", "???", 4, 1, 2, 0, bb, covers=SEQ + ["top-level-done"])
         wr(L, "t", "{a7??", 4, 1, 3, 0, bb, covers=SEQ + ["flushed-inside-value"])
         wr(L, "t", "[{a??", 8, 1, 3, 0, bb, covers=SEQ)
         wr(L, "t", "[7???", 4, 1, 1, 0, bb, covers=SEQ + ["flushed-inside-value"], ptr=True)
-        wr(L, "t", "{a[??", 16, 6, 4, 3, bb, covers=SEQ)
+        if not bb:
+            wr(L, "t", "???", 4, 1, 2, 0, bb, covers=SEQ + ["top-level-done"])
+            wr(L, "t", "{a[??", 16, 6, 4, 3, bb, covers=SEQ)
+        else:
+            wr(L, "t", "{a[??", 16, 4, 3, 3, bb, covers=SEQ)
     short(L, "[s{as}]", 4, 1, 0, 1, 1, 5)
     short(L, "{as}n", 4, 1, 0, 1, 2, 3)
     short(L, "n[s]", 8, 3, 0, 3, 1, 2, ptr=True)
@@ -102,7 +109,8 @@ def obligations(tier):
     if not q:
         short(L, "[s{as}]", 4, 1, 0, 1, 2, 5)
         short(L, "[s{as}]", 8, 3, 0, 3, 2, 4, nonl=True, ptr=True)
-        short(L, "[s{as}s]", 16, 4, 0, 3, 2, 3, ws=1)
+        short(L, "[s{as}]", 16, 4, 0, 3, 1, 3, ws=1)
+        short(L, "n[s]n", 16, 6, 0, 3, 2, 3)
         short(L, "[7??", 4, 1, 2, 0, 1, 3)
         short(L, "{a7??", 4, 1, 2, 0, 1, 3, ptr=True)
         short(L, "n??", 8, 2, 3, 1, 2, 3)
@@ -124,7 +132,9 @@ def obligations(tier):
         unwname(L, 2, 4, 2, ptr=True)
         unwname(L, 3, 8, 1)
         unwname(L, 3, 16, 1, ws=1, nsoff=True, ptr=True)
+    for o in L:
+        o["max_paths"] = 400000
     only = os.environ.get("C07_ONLY")
     if only:
-        L = [o for o in L if only in o["id"]]
+        L = [o for o in L if any(x in o["id"] for x in only.split(","))]  # development aid
     return L
